@@ -17,7 +17,7 @@ from fractions import Fraction
 
 from ..alg import AlgError, Context, Rat
 from ..extract import Extractor
-from ..model import strip_comments, Program, walk_own, is_self_attr, dotted
+from ..model import strip_comments, Program, walk_own, is_self_attr, dotted, inline_temporaries
 from ..report import AnalysisError
 from ..slices import Affine
 from .. import stagger, contours
@@ -225,15 +225,56 @@ def r2(prog, rep):
     rep.ob("R2", "total_poloidal_distance is the last region's value at y=ny, only for periodic chains", ok and len(tot) == 2, f.site(), str(tot), key="pd/total")
 
 
+def _chord_cumsum(mod, f):
+    """the value stored to self.distance[1:] is cumsum(|p[k+1] - p[k]|): after inlining
+    temporaries it is numpy.cumsum(numpy.sqrt(numpy.sum(D**2, axis=1))) (or D*D) with
+    D = self.positions[1:] - self.positions[:-1] or numpy.diff(self.positions, axis=0).
+    A difference of two other slices of the positions is a violation; any other spelling is
+    reported as unmodelled (undecided)."""
+    stores = [s for s in walk_own(f.node) if isinstance(s, ast.Assign) and mod.code(s.targets[0]) == K("self.distance[1:]")]
+    if len(stores) != 1:
+        return False, "%d stores to self.distance[1:]" % len(stores)
+    v = inline_temporaries(f.node, stores[0].value, inline_calls=True)
+
+    def call(n, name, nargs=1):
+        return isinstance(n, ast.Call) and mod.code(n.func) == name and len(n.args) == nargs
+
+    def axis(n, k):
+        return any(kw.arg == "axis" and isinstance(kw.value, ast.Constant) and kw.value.value == k for kw in n.keywords)
+
+    if not (call(v, "numpy.cumsum") and not v.keywords):
+        return False, "unmodelled: outermost operation is not numpy.cumsum: %s" % mod.code(v)[:80]
+    x = v.args[0]
+    if not (call(x, "numpy.sqrt") and call(x.args[0], "numpy.sum") and axis(x.args[0], 1)):
+        return False, "unmodelled: not sqrt(sum(.., axis=1)): %s" % mod.code(x)[:80]
+    sq = x.args[0].args[0]
+    if isinstance(sq, ast.BinOp) and isinstance(sq.op, ast.Pow) and isinstance(sq.right, ast.Constant) and sq.right.value == 2:
+        d = sq.left
+    elif isinstance(sq, ast.BinOp) and isinstance(sq.op, ast.Mult) and mod.code(sq.left) == mod.code(sq.right):
+        d = sq.left
+    else:
+        return False, "unmodelled: summand is not a square: %s" % mod.code(sq)[:80]
+    if call(d, "numpy.diff") and mod.code(d.args[0]) == "self.positions":
+        ok = axis(d, 0) and not any(kw.arg == "n" for kw in d.keywords)
+        return ok, "" if ok else "numpy.diff not along the point axis: %s" % mod.code(d)
+    if isinstance(d, ast.BinOp) and isinstance(d.op, ast.Sub) and all(isinstance(z, ast.Subscript) and mod.code(z.value) == "self.positions" for z in (d.left, d.right)):
+        ok = mod.code(d.left.slice) in ("1:", "1:None") and mod.code(d.right.slice) in (":-1", "None:-1", "0:-1")
+        return ok, "" if ok else "difference %s is not between consecutive points" % mod.code(d)
+    return False, "unmodelled: displacement %s" % mod.code(d)[:80]
+
+
 def r3(prog, rep):
     mod = prog.module(EQ)
     f = mod.funcs.get("FineContour.calcDistance")
     if f is None:
         raise AnalysisError("FineContour.calcDistance not found")
-    src = [mod.code(s) for s in f.node.body]
-    ok = K("deltaSquared=(self.positions[1:]-self.positions[:-1])**2") in src and K("self.distance[1:]=numpy.cumsum(numpy.sqrt(numpy.sum(deltaSquared,axis=1)))") in src
-    rep.ob("R3", "fine-contour distance is the cumulative sum of chord lengths between consecutive points, starting at 0", ok, f.site(), "", key="dist/cumsum")
-    zero = any(K("self.distance=numpy.zeros(self.positions.shape[0])") in mod.code(s) for s in f.node.body)
+    ok, detail = _chord_cumsum(mod, f)
+    rep.ob("R3", "fine-contour distance is the cumulative sum of chord lengths between consecutive points, starting at 0", ok, f.site(), detail, key="dist/cumsum")
+    zero = False
+    for s in walk_own(f.node):
+        if isinstance(s, ast.Assign) and mod.code(s.targets[0]) == "self.distance" and isinstance(s.value, ast.Call) and mod.code(s.value.func) == "numpy.zeros" and s.value.args:
+            n = mod.code(inline_temporaries(f.node, s.value.args[0]))
+            zero = n in (K("self.positions.shape[0]"), K("len(self.positions)"))
     rep.ob("R3", "distance[0] == 0 (array allocated as zeros, entries 1.. overwritten)", zero, f.site(), "", key="dist/zero")
     g = mod.funcs.get("FineContour.getDistance")
     if g is None:
